@@ -24,9 +24,15 @@ CONSTANTS A, B,     \* the two Content-Length values = byte lengths of tails "a"
           CHLEN     \* byte length of tail "ch": a chunked body whose payload has A bytes
 
 \* ------------------------------------------------------------------ alphabet
-RLs == {"post11", "get11", "post10", "lead", "rllf", "bad"}
+\* request lines "<METHOD> <target> HTTP/1.x": the method is varied because for a *request* it never
+\* implies "no body" (RFC 7230 3.3.3: only a Transfer-Encoding or Content-Length field announces a
+\* request body, whatever the method; the HEAD / CONNECT special cases of 3.3.3 (1),(2) are about responses)
+MethodRL == {"head11", "put11", "delete11", "options11", "connect11", "patch11", "trace11", "head10"}
+RLs == {"post11", "get11", "post10", "lead", "rllf", "bad"} \cup MethodRL
 GrayRL == {"lead", "rllf", "bad"}
-\* post11 "POST /p HTTP/1.1" | get11 "GET /p HTTP/1.1" | post10 "POST /p HTTP/1.0"
+Http10(rl) == rl \in {"post10", "head10"}
+\* post11 "POST /p HTTP/1.1" | get11 "GET /p HTTP/1.1" | post10 "POST /p HTTP/1.0" | head11 "HEAD /p HTTP/1.1" ...
+\* connect11 "CONNECT h:443 HTTP/1.1"
 \* lead: empty line before the request line | rllf: request line ended by bare LF | bad: "POST /p" (no version)
 \* every message has "Host: h" as its first header line
 
@@ -93,7 +99,7 @@ P(rl, hs) ==
   ELSE IF ~ObsChainOK(hs) THEN Verdict("gray", "obs-fold", NoFr)
   ELSE IF \E i \in 1..Len(hs) : GrayLine(hs[i]) THEN Verdict("gray", "lenient-line", NoFr)
   ELSE IF tes # <<>> THEN
-         IF rl = "post10" THEN Verdict("gray", "te-on-http10", NoFr)
+         IF Http10(rl) THEN Verdict("gray", "te-on-http10", NoFr)
          ELSE IF \A i \in 1..Len(tes) : tes[i] = "chunked" THEN
                 IF Len(tes) > 1 THEN Verdict("gray", "te-chunked-twice", NoFr)
                 ELSE IF AnyCL(hs) THEN Verdict("ifacc", "te-and-cl", Fr("chunked", 0))
